@@ -149,6 +149,9 @@ func Gen(rng *rand.Rand, class string, o GenOpts) *Batch {
 	case "xwide":
 		// more than 128 fields: field ids need two varint bytes
 		return genXWide(rng, o)
+	case "huge":
+		// more than 65536 documents: document numbers need more than 16 bits
+		return genHuge(rng, o)
 	default:
 		panic("unknown class " + class)
 	}
@@ -316,6 +319,7 @@ func Gen(rng *rand.Rand, class string, o GenOpts) *Batch {
 		b.Docs = append(b.Docs, doc)
 	}
 	AddShapes(b, 11)
+	DropTermVectorFlags(b, 9)
 	if o.Vec {
 		salt := o.VecSalt
 		if salt == 0 {
@@ -683,6 +687,63 @@ func GenMetaSweep(rng *rand.Rand, prefix string) *Batch {
 		}
 		doc.Fields = append(doc.Fields, FieldInst{Name: name, Type: 't', Len: 1, Toks: []Tok{{Term: "x", Freq: 1}}})
 		b.Docs = append(b.Docs, doc)
+	}
+	return b
+}
+
+// DropTermVectorFlags clears the term-vector option of about one field instance
+// in `every` while its tokens keep their locations (chosen by position, no
+// random draws): the locations handed in are stored and returned whatever the
+// option says, and the composite field of such a document still carries them.
+func DropTermVectorFlags(b *Batch, every int) {
+	for di := range b.Docs {
+		for fi := range b.Docs[di].Fields {
+			if (di*5+fi*2+1)%every == 0 {
+				b.Docs[di].Fields[fi].TV = false
+			}
+		}
+		for ci := range b.Docs[di].Composite {
+			if (di+ci)%every == 1 {
+				b.Docs[di].Composite[ci].TV = false
+			}
+		}
+	}
+}
+
+// genHuge: a little more than 65536 documents, almost all of them with an _id
+// only; a few (spread out, and the last ones, so that numbers >= 65536 carry
+// content) have a field with tokens, stored value, doc values, a vector and
+// synonym definitions.
+func genHuge(rng *rand.Rand, o GenOpts) *Batch {
+	b := &Batch{}
+	n := 65536 + 40 + rng.Intn(60)
+	name := FieldPool[rng.Intn(len(FieldPool))]
+	salt := o.VecSalt
+	if salt == 0 {
+		salt = 1
+	}
+	h := salt*31 + 3*7 + int('v')
+	dims, metric, opt := 2+h%4, Metrics[(h/4)%3], Opts[(h/12)%3]
+	for d := 0; d < n; d++ {
+		doc := Doc{ID: fmt.Sprintf("%sh%06d", o.IDPrefix, d), IDLast: d%2 == 0}
+		if d%4099 == 7 || d >= n-60 || d == 65535 || d == 65536 {
+			f := FieldInst{Name: name, Type: 't', TV: true, DV: true, Stored: true, Value: []byte(fmt.Sprintf("v%d", d)), Len: 3}
+			t1 := TermPool[d%5]
+			f.Toks = []Tok{{Term: t1, Freq: 1, Locs: []Loc{{Pos: 1, Start: 0, End: uint64(len(t1))}}}, {Term: "hh", Freq: 2, Locs: []Loc{{Pos: 2, Start: 5, End: 7}, {Pos: 3, Start: 8, End: 10}}}}
+			if t1 == "hh" {
+				f.Toks = f.Toks[1:]
+			}
+			doc.Fields = append(doc.Fields, f)
+			if o.Vec && d%3 != 0 {
+				doc.Vecs = append(doc.Vecs, VecField{Name: "vec", Dims: dims, Metric: metric, Opt: opt, Vec: genVec(rng, dims)})
+			}
+		}
+		b.Docs = append(b.Docs, doc)
+	}
+	if o.Syn {
+		for k := 0; k < 3; k++ {
+			b.Docs = append(b.Docs, Doc{ID: fmt.Sprintf("%shsyn%d", o.IDPrefix, k), Syn: []SynField{{Thes: ThesPool[k%2], Pairs: []SynPair{{Term: "big", Syns: []string{"large", fmt.Sprintf("huge%d", k)}}, {Term: TermPool[k], Syns: []string{"x"}}}}}})
+		}
 	}
 	return b
 }
